@@ -359,12 +359,27 @@ def ob_retry_record_plain(ctx, num):
     cl = m.classes.get("RetryStats")
     if cl is None:
         raise AnalysisError("class RetryStats not found in eudoxia/scheduler/waiting_queue.py")
-    hooks = [n for n in cl.methods if n in ("__init__", "__post_init__", "__setattr__", "__getattribute__", "__getattr__", "__new__")]
+    hooks = [n for n in cl.methods if n in ("__setattr__", "__getattribute__", "__getattr__", "__new__")]
     props = [n for n, f in cl.methods.items() if any(isinstance(d, ast.Name) and d.id == "property" for d in f.decorators()) and n in ("old_cpu", "old_ram")]
-    ws = [w for a in ("old_cpu", "old_ram") for w in attr_writes(P, a, include_mutation=False)]
+    # the constructor (written by hand, or the one @dataclass generates — model._dataclass_init writes it out, __post_init__ included) stores
+    # each of the two parameters once, unchanged; nothing else in the package writes the fields
+    ws = []
+    ini = cl.methods.get("__init__")
+    for a in ("old_cpu", "old_ram"):
+        plain = 0
+        for w in attr_writes(P, a, include_mutation=False):
+            st = w.node
+            if ini is not None and w.fn.qual == ini.qual and w.fn.mod is ini.mod and isinstance(st, ast.Assign) and len(st.targets) == 1 \
+                    and norm.U(st.targets[0]) == f"self.{a}" and norm.is_name(st.value, a) \
+                    and not any(isinstance(x, ast.Name) and x.id == a and isinstance(x.ctx, ast.Store) for x in own_nodes(ini.node)):
+                plain += 1
+            else:
+                ws.append(w)
+        if plain != 1:
+            hooks.append(f"__init__ stores {a} {plain} time(s)")
     dec = [norm.U(d) for d in cl.node.decorator_list]
-    ok = not hooks and not props and not ws and any(d.split("(")[0].split(".")[-1] == "dataclass" for d in dec)
-    anchor = cl.methods[hooks[0]] if hooks else None
+    ok = not hooks and not props and not ws
+    anchor = cl.methods.get(hooks[0]) if hooks else None
     ctx.ob(num, "K6", "a retry record hands back old_cpu / old_ram exactly as they were stored (a plain dataclass: no hook rewrites the fields, nothing writes them later)",
            ok, anchor, anchor.node if anchor else None, file="eudoxia/scheduler/waiting_queue.py", construct="RetryStats is a plain record",
            detail=f"decorators: {dec}; hooks defined: {hooks}; properties over the fields: {props}; later writes: {[repr(w) for w in ws]}")
